@@ -400,7 +400,7 @@ def rule_dep(ctx):
 
 SPECS = [
     RuleSpec("C09.R1", rule_r1, 16, "M0", "the 16 source->target converters exist, are exported, and their target has a writer"),
-    RuleSpec("C09.R2", rule_r2, 13, "A1", "the target's key-count field is derived from the source's key count"),
+    RuleSpec("C09.R2", rule_r2, 13, "A1", "the target's key-count field is derived from the source chart's key count, per chart"),
     RuleSpec("C09.R3", rule_r3, 3, "A7", "key<->mode tables mutually inverse; the SM writer sizes rows from the same table"),
     RuleSpec("C09.R5", rule_r5, 200, "A1", "converter content: list mapping tables, declared targets, one target per source (C08.R1-R3 on the pipeline)"),
     RuleSpec("C09.R6", rule_r6, 4, "A10", "only fields the target writer can express are copied (BMS: 4/4 only)"),
